@@ -1,0 +1,42 @@
+//go:build verif
+
+package seat_manager
+
+// Ghost code for the verifier: compiled only under the verif build tag, never called by anything.
+// Each function is a lemma over the CONTRACTS of the functions it calls (the verifier applies a callee's
+// contract, never its body), stated as the function's own contract in zz_contracts_verif.go.
+
+// verifEnv stands for whatever happens to the table between two rotations (arrivals, departures, busts,
+// re-buys of the other players): its assumed contract keeps the representation invariant, the button seats
+// and the observed player's seat.
+func (sm *seatManager) verifEnv(s int) {}
+
+// verifLemmaWaitBound: a live player waiting strictly between button and big blind is dealt in after at most
+// two rotations of a three-or-more-handed table, whatever the other players do in between
+// (C05: "never misses more than three hands in a row" = the hand during which they sat down + at most two).
+func (sm *seatManager) verifLemmaWaitBound(s int) bool {
+	sm.verifEnv(s)
+	if sm.IsHU() {
+		return true // outside the lemma: the previous hand was heads-up
+	}
+	if sm.rotatePositions() != nil {
+		return true // refused: no hand is dealt, nothing is missed
+	}
+	if sm.getActivePlayerCount() < 3 {
+		return true // outside the lemma: a heads-up hand
+	}
+	if sm.SeatData[s].Active() {
+		return true
+	}
+	sm.verifEnv(s)
+	if sm.IsHU() {
+		return true
+	}
+	if sm.rotatePositions() != nil {
+		return true
+	}
+	if sm.getActivePlayerCount() < 3 {
+		return true
+	}
+	return sm.SeatData[s].Active()
+}
